@@ -22,8 +22,9 @@ txt = f'''
 Each change compiles, keeps the 3542 tests green, and comes with a demonstration that fails with it and
 passes without it (confirmed with `tools/seedeval.sh`). Batches 1-4 were written against the property text alone;
 batches 5-15 ("hard mode") were additionally told what a property-based harness of this kind generates and asked for a
-change it would plausibly miss - the description grew with every batch; batch 16 (C10g, C14h) went back to the
-property text alone and was run against the checks as frozen at the end of batch 15 - both caught as built. `tools/selftest.sh` re-applies every patch
+change it would plausibly miss - the description grew with every batch; batches 16-17 (C10g, C14h; C11h, C13h, C16i) were run against the
+checks as frozen at the end of batch 15 - four caught as built, C11h (a word-wise big-number comparison that is wrong
+only from 39 equal-length digits with the difference in the leading ones) caught after `gen.LongRunFamily` was added. `tools/selftest.sh` re-applies every patch
 in a scratch worktree and runs the quick check of the targeted property and of the properties listed under
 `also_check` (`detection.json`). {len(rows)} changes so far; {missed} were missed and {thin} were caught only thinly or
 seed-dependently by the checks as they stood when the change arrived; after the strengthening recorded in the history
@@ -43,7 +44,8 @@ words, numbers, lengths, operators, CLI words); tables keyed on a hash need coll
 state that builds up needs volume with KEPT objects and re-asked first questions; tables keyed on glued texts
 need twin questions; "atomics only" memo fields need many goroutines inside ONE object; lazy initialisation needs
 processes whose first calls are concurrent; packed keys need every power-of-two band and the boundaries of text
-encodings; new syntax needs the sources' punctuation literals placed around versions.
+encodings; new syntax needs the sources' punctuation literals placed around versions; digit runs need
+equal-length families far beyond the machine-word boundaries, differing at the head as well as at the tail.
 '''
 s = open('DESIGN.md').read()
 tail = ''
